@@ -200,6 +200,11 @@ Proof. reflexivity. Qed.
 Lemma gen_limit_cfg cfg N : c_max_gen cfg = Some N -> gen_limit (cfg_terms cfg) = Some N.
 Proof. intros H. unfold cfg_terms, terminations. rewrite H. destruct (c_max_time cfg); reflexivity. Qed.
 
+(* nothing configured: EvolutionConfigBuilder::get_termination installs max-generations 3000 and max-time 300 s *)
+Lemma gen_limit_default cfg :
+  c_max_gen cfg = None -> c_max_time cfg = false -> c_min_cv cfg = None -> c_target cfg = false -> gen_limit (cfg_terms cfg) = Some 3000.
+Proof. intros H1 H2 H3 H4. unfold cfg_terms, terminations. rewrite H1, H2, H3, H4. reflexivity. Qed.
+
 (* the effective limit on statistics.generation: the configured maximum, lowered by a user-supplied criterion *)
 Definition eff_limit (cfg : econfig) (N : nat) : nat :=
   match c_user_term cfg with Some l => Nat.min N l | None => N end.
@@ -227,12 +232,15 @@ Proof.
     rewrite ?Htm, ?Hot; cbn [fst]; try reflexivity; destruct (l <=? gen); reflexivity.
 Qed.
 
+(* the checks before the first initial operator is run (slot = number of supplied individuals taken) do not stop the initial phase *)
 Definition first_check_passes (cfg : econfig) (W : oracles) : Prop :=
-  fst (is_termination (cfg_terms cfg) 0 (o_time W) (o_other W) 0) = false /\ est_exceeds (cfg_terms cfg) 0 (o_init_quota W 0) = false.
+  fst (is_termination (cfg_terms cfg) 0 (o_time W) (o_other W) 0) = false
+  /\ est_exceeds (cfg_terms cfg) 0 (o_init_quota W (length (seeded cfg))) = false.
 
 Lemma first_check_positive_limit cfg W N :
   c_max_gen cfg = Some N -> 1 <= eff_limit cfg N ->
-  (forall t, t < 3 -> o_time W t = false /\ forall i, o_other W i t = false) -> (c_max_time cfg = true -> o_init_quota W 0 = false) ->
+  (forall t, t < 3 -> o_time W t = false /\ forall i, o_other W i t = false) ->
+  (c_max_time cfg = true -> o_init_quota W (length (seeded cfg)) = false) ->
   first_check_passes cfg W.
 Proof.
   intros Hg HN Hquiet Hiq. unfold first_check_passes, cfg_terms, terminations. rewrite Hg.
@@ -249,6 +257,25 @@ Proof.
     rewrite E1, E2, E3, ?E4, ?Ht0, ?Ht1, ?Ht2, ?Ho0, ?Ho1, ?Ho2; split; reflexivity.
 Qed.
 
+(* the counter of wall-clock / oracle criteria evaluations never goes back *)
+Lemma is_termination_tp_mono ts gen tm ot : forall tp, tp <= snd (is_termination ts gen tm ot tp).
+Proof.
+  induction ts as [|t r IH]; intros tp; cbn [is_termination]; [cbn; lia|].
+  destruct t as [l| |i|l].
+  - destruct (l <=? gen); [cbn; lia|apply IH].
+  - destruct (tm tp); [cbn; lia|]. specialize (IH (S tp)). lia.
+  - destruct (ot i tp); [cbn; lia|]. specialize (IH (S tp)). lia.
+  - destruct (l <=? gen); [cbn; lia|apply IH].
+Qed.
+
+(* only a time limit (and possibly min-cv / target proximity) is configured: MaxTime is the first criterion of the composite *)
+Lemma cfg_terms_time_first cfg :
+  c_max_gen cfg = None -> c_max_time cfg = true -> exists r, cfg_terms cfg = TMaxTime :: r.
+Proof.
+  intros Hg Ht. unfold cfg_terms, terminations. rewrite Hg, Ht.
+  destruct (c_min_cv cfg), (c_target cfg); cbn [app]; eexists; reflexivity.
+Qed.
+
 (* ------------------------------------------------------------------ telemetry *)
 Definition tele_wf (t : tele) : Prop :=
   t_metric_gens t = t_stat_gen t
@@ -257,42 +284,253 @@ Definition tele_wf (t : tele) : Prop :=
 Lemma tele0_wf : tele_wf tele0.
 Proof. split; [reflexivity|left; split; reflexivity]. Qed.
 
-Lemma on_generation_wf t b : tele_wf (on_generation t b).
+Lemma on_generation_wf T t b : tele_wf (on_generation T t b).
 Proof. split; [reflexivity|right; reflexivity]. Qed.
 
-Lemma on_generation_gens t b : gens_run (on_generation t b) = S (gens_run t).
+Lemma on_generation_gens T t b : gens_run (on_generation T t b) = S (gens_run t).
 Proof. unfold gens_run, on_generation. cbn [t_next]. destruct (t_next t); reflexivity. Qed.
 
-Lemma on_generation_stat t b : t_stat_gen (on_generation t b) = gens_run t.
+Lemma on_generation_stat T t b : t_stat_gen (on_generation T t b) = gens_run t.
 Proof. unfold gens_run, on_generation. cbn [t_stat_gen]. destruct (t_next t); reflexivity. Qed.
-
-Lemma on_generation_evolution t : length (t_evolution (on_generation t true)) = S (length (t_evolution t)).
-Proof. unfold on_generation. cbn [t_evolution]. rewrite app_length. cbn [length]. lia. Qed.
 
 Lemma tele_wf_gens t : tele_wf t -> gens_run t = 0 /\ t_stat_gen t = 0 \/ gens_run t = S (t_stat_gen t).
 Proof. intros [_ [[H1 H2]|H]]; unfold gens_run; [rewrite H1; left; split; [reflexivity|exact H2]|rewrite H; right; reflexivity]. Qed.
 
+(* what metrics.generations reports is the INDEX of the last generation: one less than the number of generations run *)
+Lemma tele_wf_metric t : tele_wf t -> t_metric_gens t = pred (gens_run t) /\ t_stat_gen t = pred (gens_run t).
+Proof. intros Hwf. destruct (tele_wf_gens t Hwf) as [[H1 H2]|H1]; destruct Hwf as [Hm _]; rewrite H1; cbn [pred]; lia. Qed.
+
+(* the generation numbers tracked in metrics.evolution: every T-th generation while the run goes on ... *)
+Definition tracked (T n : nat) : list nat := filter (fun g => g mod T =? 0) (seq 0 n).
+(* ... plus the last one at the end (Telemetry::on_result) when it is not a multiple of T *)
+Definition reported (T n : nat) : list nat := tracked T n ++ (if pred n mod T =? 0 then [] else [pred n]).
+
+Lemma tracked_S T n : tracked T (S n) = tracked T n ++ (if n mod T =? 0 then [n] else []).
+Proof. unfold tracked. rewrite seq_S, filter_app. cbn [filter plus]. destruct (n mod T =? 0); reflexivity. Qed.
+
+Lemma filter_all_true {A} (f : A -> bool) l : (forall x, In x l -> f x = true) -> filter f l = l.
+Proof.
+  induction l as [|a l IH]; intros H; cbn [filter]; [reflexivity|].
+  rewrite (H a (or_introl eq_refl)), IH; [reflexivity|]. intros x Hx. apply H. right. exact Hx.
+Qed.
+
+Lemma tracked_one n : tracked 1 n = seq 0 n.
+Proof. unfold tracked. apply filter_all_true. intros g _. rewrite Nat.mod_1_r. reflexivity. Qed.
+
+Lemma reported_one n : reported 1 n = seq 0 n.
+Proof. unfold reported. rewrite tracked_one, Nat.mod_1_r. cbn [Nat.eqb]. apply app_nil_r. Qed.
+
+Lemma tracked_lt T n g : In g (tracked T n) -> g < n.
+Proof. unfold tracked. intros H. apply filter_In in H. destruct H as [H _]. apply in_seq in H. lia. Qed.
+
+Lemma on_generation_evolution T t :
+  t_evolution t = tracked T (gens_run t) -> t_evolution (on_generation T t true) = tracked T (gens_run (on_generation T t true)).
+Proof.
+  intros H. rewrite on_generation_gens, tracked_S. unfold on_generation, gens_run in *. cbn [t_evolution andb].
+  destruct (t_next t) as [g|]; rewrite H; destruct (_ mod T =? 0); rewrite ?app_nil_r; reflexivity.
+Qed.
+
+Lemma on_result_evolution T t :
+  tele_wf t -> t_evolution t = tracked T (gens_run t) -> t_evolution (on_result T t) = reported T (gens_run t).
+Proof.
+  intros Hwf H. unfold on_result, reported. cbn [t_evolution]. rewrite (proj2 (tele_wf_metric t Hwf)), H.
+  destruct (pred (gens_run t) mod T =? 0); [rewrite app_nil_r|]; reflexivity.
+Qed.
+
+Lemma on_result_gens T t : gens_run (on_result T t) = gens_run t /\ t_metric_gens (on_result T t) = t_metric_gens t
+                           /\ t_stat_gen (on_result T t) = t_stat_gen t.
+Proof. repeat split. Qed.
+
+(* ------------------------------------------------------------------ Greedy population *)
+Lemma greedy_best_from_spec {A} (fit : A -> nat) (d : A) : forall (r pre : list A) bi bf,
+    bi < length pre -> fit (nth bi pre d) = bf -> (forall x, In x pre -> bf <= fit x) ->
+    (forall i, i < bi -> bf < fit (nth i pre d)) ->
+    let k := greedy_best_from fit r (length pre) bi bf in
+    k < length (pre ++ r) /\ (forall x, In x (pre ++ r) -> fit (nth k (pre ++ r) d) <= fit x)
+    /\ (forall i, i < k -> fit (nth k (pre ++ r) d) < fit (nth i (pre ++ r) d)).
+Proof.
+  induction r as [|x r IH]; intros pre bi bf Hbi Hfit Hmin Hfirst; cbn [greedy_best_from].
+  - rewrite app_nil_r. cbv zeta. split; [exact Hbi|]. split; [intros y Hy; rewrite Hfit; apply Hmin; exact Hy|].
+    intros i Hi. rewrite Hfit. apply Hfirst. exact Hi.
+  - assert (Hsplit : pre ++ x :: r = (pre ++ [x]) ++ r) by (rewrite <- app_assoc; reflexivity).
+    assert (Hlen : length (pre ++ [x]) = S (length pre)) by (rewrite app_length; cbn [length]; lia).
+    rewrite Hsplit. destruct (bf <=? fit x) eqn:E.
+    + apply Nat.leb_le in E. rewrite <- Hlen. apply IH.
+      * rewrite Hlen. lia.
+      * rewrite app_nth1 by exact Hbi. exact Hfit.
+      * intros y Hy. apply in_app_or in Hy. destruct Hy as [Hy|[<-|[]]]; [apply Hmin; exact Hy|exact E].
+      * intros i Hi. rewrite app_nth1 by lia. apply Hfirst. exact Hi.
+    + apply Nat.leb_gt in E. rewrite <- Hlen. apply IH.
+      * rewrite Hlen. lia.
+      * rewrite app_nth2 by lia. rewrite Nat.sub_diag. reflexivity.
+      * intros y Hy. apply in_app_or in Hy. destruct Hy as [Hy|[<-|[]]]; [specialize (Hmin y Hy); lia|lia].
+      * intros i Hi. rewrite app_nth1 by exact Hi. specialize (Hmin (nth i pre d) (nth_In pre d Hi)). lia.
+Qed.
+
+(* Greedy::ranked().next() after the population received l: the FIRST individual of minimal fitness *)
+Lemma greedy_best_spec {A} (fit : A -> nat) (d : A) (l : list A) :
+  l <> [] ->
+  greedy_best fit l < length l
+  /\ (forall x, In x l -> fit (nth (greedy_best fit l) l d) <= fit x)
+  /\ (forall i, i < greedy_best fit l -> fit (nth (greedy_best fit l) l d) < fit (nth i l d)).
+Proof.
+  destruct l as [|x r]; [congruence|intros _]. unfold greedy_best.
+  apply (greedy_best_from_spec fit d r [x] 0 (fit x)); cbn [length nth].
+  - lia.
+  - reflexivity.
+  - intros y [<-|[]]. lia.
+  - intros i Hi. lia.
+Qed.
+
+(* Greedy::add_all never loses the best known individual: what it keeps afterwards is at least as good, and it is the old one
+   or one of the individuals handed over; an EMPTY hand-over keeps it unchanged *)
+Lemma greedy_add_all_keeps {A} (fit : A -> nat) : forall (xs : list A) (b : A) (imp : bool),
+    exists b' imp', fold_left (fun acc x => let '(b1, i1) := greedy_add fit (fst acc) x in (b1, i1 || snd acc)) xs (Some b, imp)
+                    = (Some b', imp')
+                    /\ fit b' <= fit b /\ (b' = b \/ In b' xs) /\ (forall x, In x xs -> fit b' <= fit x).
+Proof.
+  induction xs as [|x xs IH]; intros b imp; cbn [fold_left].
+  - exists b, imp. split; [reflexivity|]. split; [lia|]. split; [left; reflexivity|intros x []].
+  - cbn [fst snd greedy_add]. destruct (fit b <=? fit x) eqn:E.
+    + apply Nat.leb_le in E. destruct (IH b (false || imp)) as (b' & imp' & Ef & Hle & Hin & Hmin).
+      exists b', imp'. split; [exact Ef|]. split; [exact Hle|]. split; [destruct Hin as [->|H]; [left; reflexivity|right; right; exact H]|].
+      intros y [<-|Hy]; [lia|apply Hmin; exact Hy].
+    + apply Nat.leb_gt in E. destruct (IH x (true || imp)) as (b' & imp' & Ef & Hle & Hin & Hmin).
+      exists b', imp'. split; [exact Ef|]. split; [lia|]. split; [right; destruct Hin as [->|H]; [left; reflexivity|right; exact H]|].
+      intros y [<-|Hy]; [exact Hle|apply Hmin; exact Hy].
+Qed.
+
+Lemma greedy_add_all_spec {A} (fit : A -> nat) (xs : list A) (b : A) :
+  exists b' imp, greedy_add_all fit (Some b) xs = (Some b', imp)
+                 /\ fit b' <= fit b /\ (b' = b \/ In b' xs) /\ (forall x, In x xs -> fit b' <= fit x).
+Proof. unfold greedy_add_all. apply greedy_add_all_keeps. Qed.
+
+Lemma greedy_add_all_nil {A} (fit : A -> nat) (best : option A) : greedy_add_all fit best [] = (best, false).
+Proof. reflexivity. Qed.
+
+(* ------------------------------------------------------------------ the calls on the pluggable pieces *)
+Definition is_search (e : event) : bool := match e with EvSearch _ _ _ => true | _ => false end.
+Definition is_addall (e : event) : bool := match e with EvAddAll _ => true | _ => false end.
+Definition is_popgen (e : event) : bool := match e with EvPopGen _ => true | _ => false end.
+Definition is_select (e : event) : bool := match e with EvSelect _ => true | _ => false end.
+Definition count_ev (p : event -> bool) (l : list event) : nat := length (filter p l).
+(* statistics.generation handed to population.on_generation, call by call *)
+Definition popgen_stats (l : list event) : list nat := flat_map (fun e => match e with EvPopGen s => [s] | _ => [] end) l.
+
+Lemma count_ev_app p l1 l2 : count_ev p (l1 ++ l2) = count_ev p l1 + count_ev p l2.
+Proof. unfold count_ev. rewrite filter_app, app_length. reflexivity. Qed.
+
+(* every iteration of Iterative::run that got past the test made exactly one select, one search_many, one add_all and one
+   population.on_generation call, Telemetry::on_generation counted it, and population.on_generation saw 0, 1, 2, ... *)
+Definition counted (st : estate) : Prop :=
+  s_iters st = gens_run (s_tele st)
+  /\ count_ev is_select (s_log st) = s_iters st
+  /\ count_ev is_search (s_log st) = s_iters st
+  /\ count_ev is_addall (s_log st) = s_iters st
+  /\ count_ev is_popgen (s_log st) = s_iters st
+  /\ popgen_stats (s_log st) = seq 0 (s_iters st).
+
+Lemma counted0 : counted estate0.
+Proof. repeat split. Qed.
+
+Lemma counted_ext st st' l :
+  counted st -> s_tele st' = s_tele st -> s_iters st' = s_iters st -> s_log st' = s_log st ++ l ->
+  count_ev is_select l = 0 -> count_ev is_search l = 0 -> count_ev is_addall l = 0 -> count_ev is_popgen l = 0 -> popgen_stats l = [] ->
+  counted st'.
+Proof.
+  intros (H1 & H2 & H3 & H4 & H5 & H6) Ht Hi Hl C1 C2 C3 C4 C5. unfold counted, popgen_stats in *.
+  rewrite Ht, Hi, Hl, !count_ev_app, flat_map_app, C1, C2, C3, C4, C5, app_nil_r. repeat split; lia || assumption.
+Qed.
+
+Lemma popgen_stats_map_add (l : list hsol) : popgen_stats (map (fun _ => EvAdd) l) = [].
+Proof. induction l as [|x l IH]; [reflexivity|exact IH]. Qed.
+
+Lemma count_ev_map_add p (l : list hsol) : p EvAdd = false -> count_ev p (map (fun _ => EvAdd) l) = 0.
+Proof. intros Hp. unfold count_ev. induction l as [|x l IH]; cbn [map filter]; [reflexivity|rewrite Hp; exact IH]. Qed.
+
+Lemma seed_counted cfg st : counted st -> counted (seed cfg st).
+Proof.
+  intros H. apply (counted_ext st _ (map (fun _ => EvAdd) (seeded cfg)) H); try reflexivity;
+    try (apply count_ev_map_add; reflexivity). apply popgen_stats_map_add.
+Qed.
+
+Lemma generation_counted_inv cfg W q st st' : generation cfg W q st = Some st' -> counted st -> counted st'.
+Proof.
+  unfold generation. intros E (H1 & H2 & H3 & H4 & H5 & H6).
+  destruct (if o_inner W (s_iters st) then _ else _) as [[offs polls]|]; [|discriminate].
+  injection E as <-. unfold counted, popgen_stats, gens_run in *. cbn [s_iters s_tele s_log on_generation t_next t_stat_gen].
+  rewrite <- H1, !count_ev_app, !flat_map_app, H2, H3, H4, H5, H6, seq_S.
+  destruct (o_exploit W (s_iters st)); cbn; rewrite app_nil_r; repeat split; lia.
+Qed.
+
+Lemma iloop_counted cfg W q : forall fuel st st', iloop fuel cfg W q st = Some st' -> counted st -> counted st'.
+Proof.
+  induction fuel as [|f IH]; intros st st' E Hc; cbn [iloop] in E;
+    destruct (is_termination (cfg_terms cfg) (t_stat_gen (s_tele st)) (o_time W) (o_other W) (s_tpolls st)) as [term tp];
+    destruct (term || q (s_polls st));
+    try (injection E as <-; apply (counted_ext st _ [EvTerm (t_stat_gen (s_tele st)) term] Hc); reflexivity);
+    try discriminate.
+  match type of E with match generation cfg W q ?s with _ => _ end = _ => destruct (generation cfg W q s) as [st2|] eqn:Eg; [|discriminate] end.
+  apply (IH st2 st' E). apply (generation_counted_inv _ _ _ _ _ Eg).
+  apply (counted_ext st _ [EvTerm (t_stat_gen (s_tele st)) term] Hc); reflexivity.
+Qed.
+
+Lemma initial_counted cfg W q : forall n idx st st', initial n idx cfg W q st = Some st' -> counted st -> counted st'.
+Proof.
+  induction n as [|n IH]; intros idx st st' E Hc; cbn [initial] in E; [injection E as <-; exact Hc|].
+  destruct (is_termination (cfg_terms cfg) (t_stat_gen (s_tele st)) (o_time W) (o_other W) (s_tpolls st)) as [term tp].
+  destruct (est_exceeds (cfg_terms cfg) (t_stat_gen (s_tele st)) (o_init_quota W idx) || term).
+  - injection E as <-. apply (counted_ext st _ [EvTerm (t_stat_gen (s_tele st)) term; EvEstimate (t_stat_gen (s_tele st))] Hc); reflexivity.
+  - destruct (process _ q _) as [p|]; [|discriminate]. apply (IH _ _ _ E).
+    apply (counted_ext st _ ([EvTerm (t_stat_gen (s_tele st)) term; EvEstimate (t_stat_gen (s_tele st))]
+                               ++ [EvCreate (init_operator cfg W idx); EvAdd]) Hc); try reflexivity.
+    cbn [s_log]. rewrite <- app_assoc. reflexivity.
+Qed.
+
+(* for EVERY oracle (no assumption at all): whenever the run reaches the end of Iterative::run, the number of loop iterations that
+   got past the test = search_many calls = add_all calls = population.on_generation calls = Telemetry::on_generation calls *)
+Theorem evolve_run_counted cfg W q st : evolve_run cfg W q = Some st -> counted st.
+Proof.
+  unfold evolve_run. intros E.
+  destruct (initial _ _ cfg W q (seed cfg estate0)) as [st1|] eqn:E1; [|discriminate].
+  destruct (iloop (loop_fuel cfg) cfg W q st1) as [st2|] eqn:E2; [|discriminate]. injection E as <-.
+  change (counted st2). apply (iloop_counted _ _ _ _ _ _ E2). apply (initial_counted _ _ _ _ _ _ _ E1). apply seed_counted. exact counted0.
+Qed.
+
 (* ------------------------------------------------------------------ evolution *)
 Definition oracles_ok (W : oracles) : Prop :=
-  (forall idx, ev_ok (o_init_ev W idx)) /\ (forall g j, ev_ok (o_search_ev W g j)).
+  (forall idx op, ev_ok (o_init_ev W idx op)) /\ (forall g j, ev_ok (o_search_ev W g j)).
 
 (* a user-supplied hyper-heuristic may hand over ANY list of offspring per generation - none, fewer, more, duplicates, copies of
-   parents, solutions of its own - as long as each of them is a complete solution of the plan whenever the population and the
-   offspring of the built-in search are *)
+   parents, solutions of its own - from search_many and from diversify_many, as long as each of them is a complete solution of the
+   plan whenever the population and the offspring of the built-in search are *)
 Definition hyper_ok (jobs : list Z) (W : oracles) : Prop :=
-  forall g pop offs, Forall (Good jobs) pop -> Forall (Good jobs) offs -> Forall (Good jobs) (o_hyper W g pop offs).
+  (forall g pop offs, Forall (Good jobs) pop -> Forall (Good jobs) offs -> Forall (Good jobs) (o_hyper W g pop offs))
+  /\ (forall g pop, Forall (Good jobs) pop -> Forall (Good jobs) (o_diverse W g pop)).
 
 (* in particular every heuristic that only selects among the parents and the offspring of the built-in search: drops some or all,
    duplicates, reorders *)
 Lemma hyper_selection_ok jobs W :
-  (forall g pop offs s, In s (o_hyper W g pop offs) -> In s pop \/ In s offs) -> hyper_ok jobs W.
+  (forall g pop offs s, In s (o_hyper W g pop offs) -> In s pop \/ In s offs) ->
+  (forall g pop s, In s (o_diverse W g pop) -> In s pop) -> hyper_ok jobs W.
 Proof.
-  intros Hsel g pop offs Hpop Hoffs. apply Forall_forall. intros s Hs.
-  destruct (Hsel g pop offs s Hs) as [H|H]; [exact (proj1 (Forall_forall _ _) Hpop s H)|exact (proj1 (Forall_forall _ _) Hoffs s H)].
+  intros Hsel Hdiv. split.
+  - intros g pop offs Hpop Hoffs. apply Forall_forall. intros s Hs.
+    destruct (Hsel g pop offs s Hs) as [H|H]; [exact (proj1 (Forall_forall _ _) Hpop s H)|exact (proj1 (Forall_forall _ _) Hoffs s H)].
+  - intros g pop Hpop. apply Forall_forall. intros s Hs. exact (proj1 (Forall_forall _ _) Hpop s (Hdiv g pop s Hs)).
 Qed.
 
 Lemma rop_guards ops : forall s, guards s (map rop_hop ops).
 Proof. induction ops as [|o r IH]; intros s; cbn [map guards]; [exact I|split; [destruct o; exact I|apply IH]]. Qed.
+
+Lemma firstn_in {A} (x : A) : forall n l, In x (firstn n l) -> In x l.
+Proof.
+  induction n as [|n IH]; intros l H; [destruct H|]. destruct l as [|a l]; [destruct H|].
+  cbn [firstn] in H. destruct H as [->|H]; [left; reflexivity|right; apply IH; exact H].
+Qed.
+
+Lemma nonempty_app_l {A} (l1 l2 : list A) : l1 <> [] -> nonempty (l1 ++ l2) = true.
+Proof. destruct l1; [congruence|reflexivity]. Qed.
 
 Section Evolve.
   Variable cfg : econfig.
@@ -300,6 +538,7 @@ Section Evolve.
   Variable q : quota.
   Hypothesis HW : oracles_ok W.
   Let jobs := c_jobs cfg.
+  Let T := c_track cfg.
   Hypothesis HH : hyper_ok jobs W.
 
   Lemma process_good ev st : ev_ok ev -> Inv jobs (p_sol st) ->
@@ -326,17 +565,27 @@ Section Evolve.
       exists (p_sol pst :: rest), polls'. split; [reflexivity|]. split; [constructor; assumption|lia].
   Qed.
 
+  (* one iteration: whatever the heuristic handed over (`handed`, possibly nothing) is appended, Telemetry::on_generation is called *)
   Lemma generation_some st : Forall (Good jobs) (s_pop st) ->
-    exists offs polls, generation cfg W q st
-                       = Some (mkS (s_pop st ++ offs) (on_generation (s_tele st) (match s_pop st ++ offs with [] => false | _ => true end))
-                                   polls (s_tpolls st))
-                       /\ Forall (Good jobs) offs /\ s_polls st <= polls.
+    exists handed st', generation cfg W q st = Some st'
+                       /\ s_pop st' = s_pop st ++ handed
+                       /\ s_tele st' = on_generation T (s_tele st) (nonempty (s_pop st ++ handed))
+                       /\ s_tpolls st' = s_tpolls st /\ s_iters st' = S (s_iters st)
+                       /\ Forall (Good jobs) handed /\ s_polls st <= s_polls st'.
   Proof.
     intros Hpop. unfold generation.
-    destruct (offspring_some (gens_run (s_tele st)) (s_pop st) Hpop (o_parents W (gens_run (s_tele st)) (s_pop st)) 0 (s_polls st))
-      as (offs & polls & E & Hoffs & Hp).
-    rewrite E. exists (o_hyper W (gens_run (s_tele st)) (s_pop st) offs), polls. split; [reflexivity|].
-    split; [apply HH; assumption|exact Hp].
+    assert (Ho : exists offs polls,
+               (if o_inner W (s_iters st) then offspring (s_iters st) 0 (o_parents W (s_iters st) (s_pop st)) cfg W q (s_pop st) (s_polls st)
+                else Some ([], s_polls st + o_skip W (s_iters st) 0)) = Some (offs, polls)
+               /\ Forall (Good jobs) offs /\ s_polls st <= polls).
+    { destruct (o_inner W (s_iters st)).
+      - apply offspring_some. exact Hpop.
+      - exists [], (s_polls st + o_skip W (s_iters st) 0). split; [reflexivity|]. split; [constructor|lia]. }
+    destruct Ho as (offs & polls & E & Hoffs & Hp). rewrite E.
+    eexists _, _. split; [reflexivity|]. cbn [s_pop s_tele s_tpolls s_iters s_polls].
+    split; [reflexivity|]. split; [reflexivity|]. split; [reflexivity|]. split; [reflexivity|]. split; [|exact Hp].
+    apply Forall_app. split; [apply (proj1 HH); assumption|].
+    destruct (o_exploit W (s_iters st)); [constructor|apply (proj2 HH); exact Hpop].
   Qed.
 
   (* EVERY iteration of Iterative::run is counted, whatever the heuristic handed over: the generation counter read by the
@@ -345,56 +594,66 @@ Section Evolve.
     exists st', generation cfg W q st = Some st'
                 /\ gens_run (s_tele st') = S (gens_run (s_tele st))
                 /\ t_stat_gen (s_tele st') = gens_run (s_tele st)
-                /\ (exists offs, s_pop st' = s_pop st ++ o_hyper W (gens_run (s_tele st)) (s_pop st) offs)
-                /\ ((forall offs, o_hyper W (gens_run (s_tele st)) (s_pop st) offs = []) -> s_pop st' = s_pop st).
+                /\ s_iters st' = S (s_iters st)
+                /\ (exists handed, s_pop st' = s_pop st ++ handed)
+                /\ ((forall offs, o_hyper W (s_iters st) (s_pop st) offs = []) ->
+                    (o_exploit W (s_iters st) = true \/ o_diverse W (s_iters st) (s_pop st) = []) -> s_pop st' = s_pop st).
   Proof.
-    intros Hpop. unfold generation.
-    destruct (offspring_some (gens_run (s_tele st)) (s_pop st) Hpop (o_parents W (gens_run (s_tele st)) (s_pop st)) 0 (s_polls st))
-      as (offs & polls & E & Hoffs & Hp).
-    rewrite E. eexists. split; [reflexivity|]. cbn [s_tele s_pop].
-    split; [apply on_generation_gens|]. split; [apply on_generation_stat|]. split; [exists offs; reflexivity|].
-    intros Hnone. rewrite Hnone. apply app_nil_r.
+    intros Hpop. destruct (generation_some st Hpop) as (handed & st' & E & Hp & Ht & _ & Hi & _ & _).
+    exists st'. split; [exact E|]. rewrite Ht. split; [apply on_generation_gens|]. split; [apply on_generation_stat|].
+    split; [exact Hi|]. split; [exists handed; exact Hp|].
+    intros Hnone Hdiv. unfold generation in E.
+    destruct (if o_inner W (s_iters st) then _ else _) as [[offs polls]|]; [|discriminate].
+    injection E as <-. cbn [s_pop]. rewrite Hnone.
+    destruct Hdiv as [->| ->]; [|destruct (o_exploit W (s_iters st))]; cbn [app]; apply app_nil_r.
   Qed.
 
   Lemma initial_some : forall n idx st, Forall (Good jobs) (s_pop st) ->
       exists st1, initial n idx cfg W q st = Some st1
-                  /\ Forall (Good jobs) (s_pop st1) /\ s_tele st1 = s_tele st /\ (exists l, s_pop st1 = s_pop st ++ l).
+                  /\ Forall (Good jobs) (s_pop st1) /\ s_tele st1 = s_tele st /\ s_iters st1 = s_iters st
+                  /\ (exists l, s_pop st1 = s_pop st ++ l /\ length l <= n) /\ s_polls st <= s_polls st1.
   Proof.
     induction n as [|n IH]; intros idx st Hpop; cbn [initial].
-    - exists st. split; [reflexivity|]. split; [exact Hpop|]. split; [reflexivity|exists []; rewrite app_nil_r; reflexivity].
+    - exists st. split; [reflexivity|]. split; [exact Hpop|]. split; [reflexivity|]. split; [reflexivity|].
+      split; [exists []; rewrite app_nil_r; split; [reflexivity|cbn; lia]|lia].
     - destruct (is_termination (cfg_terms cfg) (t_stat_gen (s_tele st)) (o_time W) (o_other W) (s_tpolls st)) as [term tp].
       destruct (est_exceeds (cfg_terms cfg) (t_stat_gen (s_tele st)) (o_init_quota W idx) || term).
-      + eexists. split; [reflexivity|]. cbn [s_pop s_tele]. split; [exact Hpop|]. split; [reflexivity|exists []; rewrite app_nil_r; reflexivity].
-      + destruct (process_good (o_init_ev W idx) (mkP (init jobs) (c_reg cfg) (s_polls st) 0) (proj1 HW idx) (homes_init jobs))
-          as (p & E & Hg & _).
-        fold jobs. rewrite E.
-        destruct (IH (S idx) (mkS (s_pop st ++ [p_sol p]) (s_tele st) (p_polls p) tp)) as (st1 & E1 & Hp1 & Ht1 & l & Hl).
+      + eexists. split; [reflexivity|]. cbn [s_pop s_tele s_iters s_polls]. split; [exact Hpop|]. split; [reflexivity|]. split; [reflexivity|].
+        split; [exists []; rewrite app_nil_r; split; [reflexivity|cbn; lia]|lia].
+      + destruct (process_good (o_init_ev W idx (init_operator cfg W idx)) (mkP (init jobs) (c_reg cfg) (s_polls st) 0)
+                               (proj1 HW idx _) (homes_init jobs)) as (p & E & Hg & Hpl).
+        fold jobs. rewrite E. cbn [p_polls] in Hpl.
+        match goal with |- exists st1, initial n (S idx) cfg W q ?s = _ /\ _ =>
+          destruct (IH (S idx) s) as (st1 & E1 & Hp1 & Ht1 & Hi1 & (l & Hl & Hlen) & Hpl1) end.
         { cbn [s_pop]. apply Forall_app. split; [exact Hpop|constructor; [exact Hg|constructor]]. }
-        exists st1. split; [exact E1|]. split; [exact Hp1|]. split; [exact Ht1|].
-        exists ([p_sol p] ++ l). rewrite Hl. cbn [s_pop]. rewrite <- app_assoc. reflexivity.
+        cbn [s_pop s_tele s_iters s_polls] in *.
+        exists st1. split; [exact E1|]. split; [exact Hp1|]. split; [exact Ht1|]. split; [exact Hi1|]. split; [|lia].
+        exists ([p_sol p] ++ l). rewrite Hl, <- app_assoc. split; [reflexivity|cbn [app length]; lia].
   Qed.
 
-  Lemma initial_first n st :
+  Lemma initial_first n idx st :
     fst (is_termination (cfg_terms cfg) (t_stat_gen (s_tele st)) (o_time W) (o_other W) (s_tpolls st)) = false ->
-    est_exceeds (cfg_terms cfg) (t_stat_gen (s_tele st)) (o_init_quota W 0) = false ->
+    est_exceeds (cfg_terms cfg) (t_stat_gen (s_tele st)) (o_init_quota W idx) = false ->
     Forall (Good jobs) (s_pop st) ->
-    exists st1, initial (S n) 0 cfg W q st = Some st1
-                /\ Forall (Good jobs) (s_pop st1) /\ s_tele st1 = s_tele st /\ s_pop st1 <> [].
+    exists st1, initial (S n) idx cfg W q st = Some st1
+                /\ Forall (Good jobs) (s_pop st1) /\ s_tele st1 = s_tele st /\ s_iters st1 = s_iters st /\ s_pop st1 <> [].
   Proof.
     intros Ht He Hpop. cbn [initial].
     destruct (is_termination (cfg_terms cfg) (t_stat_gen (s_tele st)) (o_time W) (o_other W) (s_tpolls st)) as [term tp].
     cbn [fst] in Ht. subst term. rewrite He. cbn [orb].
-    destruct (process_good (o_init_ev W 0) (mkP (init jobs) (c_reg cfg) (s_polls st) 0) (proj1 HW 0) (homes_init jobs))
-      as (p & E & Hg & _).
+    destruct (process_good (o_init_ev W idx (init_operator cfg W idx)) (mkP (init jobs) (c_reg cfg) (s_polls st) 0)
+                           (proj1 HW idx _) (homes_init jobs)) as (p & E & Hg & _).
     fold jobs. rewrite E.
-    destruct (initial_some n 1 (mkS (s_pop st ++ [p_sol p]) (s_tele st) (p_polls p) tp)) as (st1 & E1 & Hp1 & Ht1 & l & Hl).
+    match goal with |- exists st1, initial n (S idx) cfg W q ?s = _ /\ _ =>
+      destruct (initial_some n (S idx) s) as (st1 & E1 & Hp1 & Ht1 & Hi1 & (l & Hl & _) & _) end.
     { cbn [s_pop]. apply Forall_app. split; [exact Hpop|constructor; [exact Hg|constructor]]. }
-    exists st1. split; [exact E1|]. split; [exact Hp1|]. split; [exact Ht1|].
+    exists st1. split; [exact E1|]. split; [exact Hp1|]. split; [exact Ht1|]. split; [exact Hi1|].
     rewrite Hl. cbn [s_pop]. destruct (s_pop st); discriminate.
   Qed.
 
   (* Iterative::run under a generation limit l: returns, keeps every individual good, never exceeds l + 1 generations,
-     and starts no generation once the quota has fired *)
+     starts no generation once the quota has fired, keeps the population it started with (a prefix), and tracks every T-th
+     generation when the population was not empty at the start *)
   Lemma iloop_some l k :
     gen_limit (cfg_terms cfg) = Some l ->
     forall fuel st,
@@ -403,8 +662,8 @@ Section Evolve.
                   /\ Forall (Good jobs) (s_pop st') /\ (exists e, s_pop st' = s_pop st ++ e)
                   /\ tele_wf (s_tele st') /\ gens_run (s_tele st') <= S l
                   /\ (fires_by q k -> gens_run (s_tele st) <= s_polls st -> gens_run (s_tele st') <= Nat.max (gens_run (s_tele st)) (pred k))
-                  /\ (s_pop st <> [] -> length (t_evolution (s_tele st)) = gens_run (s_tele st)
-                      -> length (t_evolution (s_tele st')) = gens_run (s_tele st')).
+                  /\ (s_pop st <> [] -> t_evolution (s_tele st) = tracked T (gens_run (s_tele st))
+                      -> t_evolution (s_tele st') = tracked T (gens_run (s_tele st'))).
   Proof.
     intros Hl. induction fuel as [|f IH]; intros st Hpop Hwf Hg Hfuel; cbn [iloop];
       destruct (is_termination (cfg_terms cfg) (t_stat_gen (s_tele st)) (o_time W) (o_other W) (s_tpolls st)) as [term tp] eqn:Eterm;
@@ -425,30 +684,26 @@ Section Evolve.
         rewrite Eterm in Hterm. cbn [fst] in Hterm.
         destruct (tele_wf_gens _ Hwf) as [[H1 H2]|H1]; [lia|].
         destruct (le_lt_dec l (t_stat_gen (s_tele st))) as [Hle|Hgt]; [specialize (Hterm Hle); discriminate|lia]. }
-      set (st1 := mkS (s_pop st) (s_tele st) (S (s_polls st)) tp).
-      destruct (generation_some st1 Hpop) as (offs & polls & E & Hoffs & Hp). rewrite E.
-      cbn [s_pop s_tele s_polls s_tpolls st1] in *.
-      set (st2 := mkS (s_pop st ++ offs) (on_generation (s_tele st) (match s_pop st ++ offs with [] => false | _ => true end)) polls tp).
-      assert (Hpop2 : Forall (Good jobs) (s_pop st2)) by (cbn [s_pop st2]; apply Forall_app; split; assumption).
-      assert (Hg2 : gens_run (s_tele st2) = S (gens_run (s_tele st))) by (cbn [s_tele st2]; apply on_generation_gens).
+      set (st1 := mkS (s_pop st) (s_tele st) (S (s_polls st)) tp (s_iters st) (s_log st ++ [EvTerm (t_stat_gen (s_tele st)) false])).
+      destruct (generation_some st1 Hpop) as (handed & st2 & E & Hp2 & Ht2 & _ & _ & Hoffs & Hpl). rewrite E.
+      cbn [s_pop s_tele s_polls st1] in Hp2, Ht2, Hpl.
+      assert (Hpop2 : Forall (Good jobs) (s_pop st2)) by (rewrite Hp2; apply Forall_app; split; assumption).
+      assert (Hg2 : gens_run (s_tele st2) = S (gens_run (s_tele st))) by (rewrite Ht2; apply on_generation_gens).
       destruct (IH st2 Hpop2) as (st' & E' & Hpop' & (e & He) & Hwf' & Hg' & Hq' & Hev').
-      { cbn [s_tele st2]. apply on_generation_wf. }
+      { rewrite Ht2. apply on_generation_wf. }
       { lia. }
       { lia. }
       exists st'. split; [exact E'|]. split; [exact Hpop'|].
-      split; [exists (offs ++ e); rewrite He; cbn [s_pop st2]; rewrite app_assoc; reflexivity|].
+      split; [exists (handed ++ e); rewrite He, Hp2, app_assoc; reflexivity|].
       split; [exact Hwf'|]. split; [exact Hg'|]. split.
       + intros Hk Hinv.
         assert (Hk2 : S (s_polls st) < k).
         { destruct (le_lt_dec k (S (s_polls st))) as [Hle|Hgt]; [|exact Hgt]. rewrite (Hk _ Hle) in Eq. discriminate. }
-        assert (gens_run (s_tele st2) <= s_polls st2) by (cbn [s_polls st2]; lia).
+        assert (gens_run (s_tele st2) <= s_polls st2) by lia.
         specialize (Hq' Hk H). lia.
       + intros Hne Hlen. apply Hev'.
-        * cbn [s_pop st2]. destruct (s_pop st); [congruence|discriminate].
-        * cbn [s_tele st2]. rewrite on_generation_gens.
-          destruct (s_pop st ++ offs) eqn:Eapp.
-          -- destruct (s_pop st); [congruence|discriminate].
-          -- rewrite on_generation_evolution. lia.
+        * rewrite Hp2. destruct (s_pop st); [congruence|discriminate].
+        * rewrite Ht2, (nonempty_app_l _ _ Hne). apply on_generation_evolution. exact Hlen.
   Qed.
 
   (* nothing but the limit on statistics.generation stops the loop: exactly L + 1 generations, L = the configured maximum,
@@ -478,68 +733,236 @@ Section Evolve.
       destruct (tele_wf_gens _ Hwf) as [[H1 H2]|H1]; [lia|]. destruct Hwf as [Hm _].
       split; [lia|]. split; [lia|]. exists []. cbn [s_pop]. rewrite app_nil_r. reflexivity.
     - apply Nat.leb_gt in E.
-      set (st1 := mkS (s_pop st) (s_tele st) (S (s_polls st)) tp).
-      destruct (generation_some st1 Hpop) as (offs & polls & Eg & Hoffs & Hp). rewrite Eg.
-      cbn [s_pop s_tele s_polls s_tpolls st1] in *.
-      match goal with |- exists st', iloop f cfg W q ?s = _ /\ _ => destruct (IH s) as (st' & E' & Hg' & Hm' & e & He) end;
-        cbn [s_pop s_tele].
-      + apply Forall_app; split; assumption.
-      + apply on_generation_wf.
-      + rewrite on_generation_gens. destruct (tele_wf_gens _ Hwf) as [[H1 H2]|H1]; lia.
-      + rewrite on_generation_gens. lia.
+      match goal with |- exists st', match generation cfg W q ?s with _ => _ end = _ /\ _ => set (st1 := s) end.
+      destruct (generation_some st1 Hpop) as (handed & st2 & Eg & Hp2 & Ht2 & _ & _ & Hoffs & _). rewrite Eg.
+      cbn [s_pop s_tele st1] in Hp2, Ht2.
+      destruct (IH st2) as (st' & E' & Hg' & Hm' & e & He).
+      + rewrite Hp2. apply Forall_app; split; assumption.
+      + rewrite Ht2. apply on_generation_wf.
+      + rewrite Ht2, on_generation_gens. destruct (tele_wf_gens _ Hwf) as [[H1 H2]|H1]; lia.
+      + rewrite Ht2, on_generation_gens. lia.
       + exists st'. split; [exact E'|]. split; [exact Hg'|]. split; [exact Hm'|].
-        exists (offs ++ e). rewrite He. cbn [s_pop]. rewrite app_assoc. reflexivity.
+        exists (handed ++ e). rewrite He, Hp2, app_assoc. reflexivity.
+  Qed.
+
+  (* Iterative::run under a time limit only: the clock answers true from its T0-th reading on; every test of the loop reads the
+     clock, so the loop returns after at most T0 - (readings so far) generations, keeps every individual good and starts no
+     generation once the quota has fired *)
+  Lemma iloop_time r T0 k :
+    cfg_terms cfg = TMaxTime :: r -> (forall t, T0 <= t -> o_time W t = true) ->
+    forall fuel st,
+      Forall (Good jobs) (s_pop st) -> S T0 - s_tpolls st <= fuel ->
+      exists st', iloop fuel cfg W q st = Some st'
+                  /\ Forall (Good jobs) (s_pop st') /\ (exists e, s_pop st' = s_pop st ++ e)
+                  /\ gens_run (s_tele st') <= gens_run (s_tele st) + (T0 - s_tpolls st)
+                  /\ (fires_by q k -> gens_run (s_tele st) <= s_polls st -> gens_run (s_tele st') <= Nat.max (gens_run (s_tele st)) (pred k)).
+  Proof.
+    intros Hts Hclock. induction fuel as [|f IH]; intros st Hpop Hfuel; cbn [iloop];
+      pose proof (is_termination_tp_mono r (t_stat_gen (s_tele st)) (o_time W) (o_other W) (S (s_tpolls st))) as Hmono;
+      destruct (is_termination (cfg_terms cfg) (t_stat_gen (s_tele st)) (o_time W) (o_other W) (s_tpolls st)) as [term tp] eqn:Eterm;
+      rewrite Hts in Eterm; cbn [is_termination] in Eterm;
+      destruct (o_time W (s_tpolls st)) eqn:Eclock.
+    - injection Eterm as <- <-. cbn [orb]. eexists. split; [reflexivity|]. cbn [s_pop s_tele].
+      split; [exact Hpop|]. split; [exists []; rewrite app_nil_r; reflexivity|]. split; [lia|intros; lia].
+    - exfalso. rewrite Hclock in Eclock; [discriminate|lia].
+    - injection Eterm as <- <-. cbn [orb]. eexists. split; [reflexivity|]. cbn [s_pop s_tele].
+      split; [exact Hpop|]. split; [exists []; rewrite app_nil_r; reflexivity|]. split; [lia|intros; lia].
+    - assert (Hlt : s_tpolls st < T0).
+      { destruct (le_lt_dec T0 (s_tpolls st)) as [Hle|Hgt]; [rewrite (Hclock _ Hle) in Eclock; discriminate|exact Hgt]. }
+      rewrite Eterm in Hmono. cbn [snd] in Hmono.
+      destruct (term || q (s_polls st)) eqn:Estop.
+      + eexists. split; [reflexivity|]. cbn [s_pop s_tele].
+        split; [exact Hpop|]. split; [exists []; rewrite app_nil_r; reflexivity|]. split; [lia|intros; lia].
+      + apply orb_false_iff in Estop. destruct Estop as [_ Eq].
+        match goal with |- exists st', match generation cfg W q ?s with _ => _ end = _ /\ _ => set (st1 := s) end.
+        destruct (generation_some st1 Hpop) as (handed & st2 & E & Hp2 & Ht2 & Htp2 & _ & Hoffs & Hpl). rewrite E.
+        cbn [s_pop s_tele s_polls s_tpolls st1] in Hp2, Ht2, Htp2, Hpl.
+        assert (Hpop2 : Forall (Good jobs) (s_pop st2)) by (rewrite Hp2; apply Forall_app; split; assumption).
+        assert (Hg2 : gens_run (s_tele st2) = S (gens_run (s_tele st))) by (rewrite Ht2; apply on_generation_gens).
+        destruct (IH st2 Hpop2) as (st' & E' & Hpop' & (e & He) & Hg' & Hq'); [rewrite Htp2; lia|].
+        exists st'. split; [exact E'|]. split; [exact Hpop'|].
+        split; [exists (handed ++ e); rewrite He, Hp2, app_assoc; reflexivity|]. split; [rewrite Htp2 in Hg'; lia|].
+        intros Hk Hinv.
+        assert (Hk2 : S (s_polls st) < k).
+        { destruct (le_lt_dec k (S (s_polls st))) as [Hle|Hgt]; [|exact Hgt]. rewrite (Hk _ Hle) in Eq. discriminate. }
+        assert (gens_run (s_tele st2) <= s_polls st2) by lia.
+        specialize (Hq' Hk H). lia.
   Qed.
 
   Lemma pick_in (pop : list hsol) h t n : pop = h :: t -> In (nth n pop h) pop.
   Proof. intros ->. destruct (nth_in_or_default n (h :: t) h) as [H|H]; [exact H|rewrite H; left; reflexivity]. Qed.
 
+  (* the population Iterative::run starts from is not empty: some supplied individual was taken, or the first check of the
+     initial phase passes (then the first initial operator is run to completion) *)
+  Definition starts_nonempty : Prop := seeded cfg <> [] \/ (length (seeded cfg) < c_init_size cfg /\ first_check_passes cfg W).
+
+  Lemma seeded_le : length (seeded cfg) <= c_init_size cfg.
+  Proof. unfold seeded. rewrite firstn_length. lia. Qed.
+
+  Lemma seeded_good : Forall (Good jobs) (c_individuals cfg) -> Forall (Good jobs) (seeded cfg).
+  Proof.
+    intros H. apply Forall_forall. intros s Hs. unfold seeded in Hs.
+    exact (proj1 (Forall_forall _ _) H s (firstn_in _ _ _ Hs)).
+  Qed.
+
+  (* EvolutionSimulator::run before the strategy: at most initial.max_size individuals are handed to the population, no generation
+     is counted, and the population is not empty under starts_nonempty *)
+  Lemma before_loop :
+    Forall (Good jobs) (c_individuals cfg) ->
+    exists st1, initial (c_init_size cfg - length (seeded cfg)) (length (seeded cfg)) cfg W q (seed cfg estate0) = Some st1
+                /\ Forall (Good jobs) (s_pop st1) /\ s_tele st1 = tele0 /\ s_iters st1 = 0
+                /\ length (s_pop st1) <= c_init_size cfg
+                /\ (exists l, s_pop st1 = seeded cfg ++ l)
+                /\ (starts_nonempty -> s_pop st1 <> []).
+  Proof.
+    intros Hind. pose proof seeded_le as Hle. pose proof (seeded_good Hind) as Hsg.
+    assert (Hp0 : Forall (Good jobs) (s_pop (seed cfg estate0))) by exact Hsg.
+    destruct (initial_some (c_init_size cfg - length (seeded cfg)) (length (seeded cfg)) (seed cfg estate0) Hp0)
+      as (st1 & E1 & Hp1 & Ht1 & Hi1 & (l & Hl & Hlen) & _).
+    exists st1. split; [exact E1|]. split; [exact Hp1|]. split; [exact Ht1|]. split; [exact Hi1|].
+    cbn [seed s_pop estate0 app] in Hl. split; [rewrite Hl, app_length; lia|]. split; [exists l; exact Hl|].
+    intros [Hne|[Hlt [Hf1 Hf2]]].
+    - rewrite Hl. destruct (seeded cfg); [congruence|discriminate].
+    - destruct (c_init_size cfg - length (seeded cfg)) as [|n] eqn:En; [lia|].
+      destruct (initial_first n (length (seeded cfg)) (seed cfg estate0) Hf1 Hf2 Hp0) as (st1' & E1' & _ & _ & _ & Hne).
+      rewrite E1 in E1'. injection E1' as <-. exact Hne.
+  Qed.
+
   Theorem evolve_returns N k :
-    c_max_gen cfg = Some N -> 1 <= c_init_ops cfg -> 1 <= c_init_size cfg -> first_check_passes cfg W ->
+    gen_limit (cfg_terms cfg) = Some N -> 1 <= c_init_ops cfg -> 1 <= T -> Forall (Good jobs) (c_individuals cfg) -> starts_nonempty ->
     exists best st, evolve cfg W q = EOk best st
                     /\ Good jobs best /\ In best (s_pop st) /\ Forall (Good jobs) (s_pop st)
                     /\ gens_run (s_tele st) <= S N /\ (fires_by q k -> gens_run (s_tele st) <= pred k)
-                    /\ length (t_evolution (s_tele st)) = gens_run (s_tele st).
+                    /\ t_evolution (s_tele st) = reported T (gens_run (s_tele st))
+                    /\ t_metric_gens (s_tele st) = pred (gens_run (s_tele st))
+                    /\ counted st
+                    /\ (exists e, s_pop st = seeded cfg ++ e).
   Proof.
-    intros Hc Hops Hsize [Hf1 Hf2]. unfold evolve.
+    intros Hl Hops HT Hind Hstart. unfold evolve.
     assert (E0 : (c_init_ops cfg =? 0) = false) by (apply Nat.eqb_neq; lia). rewrite E0.
-    destruct (c_init_size cfg) as [|n] eqn:En; [lia|].
-    destruct (initial_first n estate0 Hf1 Hf2 (Forall_nil _)) as (st1 & E1 & Hp1 & Ht1 & Hne1). rewrite E1.
-    pose proof (gen_limit_cfg cfg N Hc) as Hl. unfold loop_fuel. rewrite Hl.
+    assert (ET : (c_track cfg =? 0) = false) by (apply Nat.eqb_neq; fold T; lia). rewrite ET.
+    destruct (before_loop Hind) as (st1 & E1 & Hp1 & Ht1 & Hi1 & _ & (l1 & Hl1) & Hne1). specialize (Hne1 Hstart).
     destruct (iloop_some N k Hl (S N) st1 Hp1) as (st2 & E2 & Hp2 & (e & He) & Hwf2 & Hg2 & Hq2 & Hev2).
     { rewrite Ht1. apply tele0_wf. }
     { rewrite Ht1. cbn. lia. }
     { rewrite Ht1. cbn. lia. }
-    rewrite E2. destruct (s_pop st2) as [|h t] eqn:Epop.
+    assert (Erun : evolve_run cfg W q = Some (strategy_result cfg st2)) by (unfold evolve_run, loop_fuel; rewrite E1, Hl, E2; reflexivity).
+    rewrite Erun. unfold finish. cbn [strategy_result s_pop]. destruct (s_pop st2) as [|h t] eqn:Epop.
     - exfalso. rewrite He in Epop. destruct (s_pop st1); [congruence|discriminate].
-    - exists (nth (o_best W (h :: t)) (h :: t) h), st2. split; [reflexivity|].
+    - eexists (nth (o_best W (h :: t)) (h :: t) h), _. split; [reflexivity|]. cbn [strategy_result s_pop s_tele]. rewrite ?Epop.
       assert (Hin : In (nth (o_best W (h :: t)) (h :: t) h) (h :: t)) by (eapply pick_in; reflexivity).
-      rewrite ?Epop.
+      change (gens_run (on_result (c_track cfg) (s_tele st2))) with (gens_run (s_tele st2)).
+      change (t_metric_gens (on_result (c_track cfg) (s_tele st2))) with (t_metric_gens (s_tele st2)).
       split; [eapply Forall_forall; [exact Hp2|exact Hin]|]. split; [exact Hin|]. split; [exact Hp2|]. split; [exact Hg2|].
-      rewrite Ht1 in Hq2, Hev2. cbn [tele0 gens_run t_next t_evolution length] in Hq2, Hev2. split.
-      + intros Hk. specialize (Hq2 Hk (Nat.le_0_l _)). change (gens_run (s_tele estate0)) with 0 in Hq2. lia.
-      + apply Hev2; [exact Hne1|reflexivity].
+      rewrite Ht1 in Hq2, Hev2. cbn [tele0 gens_run t_next t_evolution] in Hq2, Hev2. split; [|split; [|split; [|split]]].
+      + intros Hk. specialize (Hq2 Hk (Nat.le_0_l _)). lia.
+      + apply on_result_evolution; [exact Hwf2|]. apply Hev2; [exact Hne1|reflexivity].
+      + exact (proj1 (tele_wf_metric _ Hwf2)).
+      + pose proof (evolve_run_counted cfg W q _ Erun) as Hcnt. exact Hcnt.
+      + exists (l1 ++ e). rewrite He, Hl1, app_assoc. reflexivity.
   Qed.
 
   Theorem evolve_generations_exact N :
-    c_max_gen cfg = Some N -> 1 <= eff_limit cfg N -> 1 <= c_init_ops cfg -> 1 <= c_init_size cfg -> first_check_passes cfg W ->
+    c_max_gen cfg = Some N -> 1 <= eff_limit cfg N -> 1 <= c_init_ops cfg -> 1 <= T -> Forall (Good jobs) (c_individuals cfg) ->
+    starts_nonempty ->
     (forall n, q n = false) -> (forall t, o_time W t = false) -> (forall i t, o_other W i t = false) ->
     exists best st, evolve cfg W q = EOk best st /\ gens_run (s_tele st) = S (eff_limit cfg N)
-                    /\ t_metric_gens (s_tele st) = eff_limit cfg N.
+                    /\ t_metric_gens (s_tele st) = eff_limit cfg N /\ s_iters st = S (eff_limit cfg N).
   Proof.
-    intros Hc HN Hops Hsize [Hf1 Hf2] Hq Htm Hot. unfold evolve.
+    intros Hc HN Hops HT Hind Hstart Hq Htm Hot. unfold evolve.
     assert (E0 : (c_init_ops cfg =? 0) = false) by (apply Nat.eqb_neq; lia). rewrite E0.
-    destruct (c_init_size cfg) as [|n] eqn:En; [lia|].
-    destruct (initial_first n estate0 Hf1 Hf2 (Forall_nil _)) as (st1 & E1 & Hp1 & Ht1 & Hne1). rewrite E1.
-    pose proof (gen_limit_cfg cfg N Hc) as Hl. unfold loop_fuel. rewrite Hl.
+    assert (ET : (c_track cfg =? 0) = false) by (apply Nat.eqb_neq; fold T; lia). rewrite ET.
+    destruct (before_loop Hind) as (st1 & E1 & Hp1 & Ht1 & Hi1 & _ & _ & Hne1). specialize (Hne1 Hstart).
+    pose proof (gen_limit_cfg cfg N Hc) as Hl.
     pose proof (eff_limit_le cfg N) as HLN.
     destruct (iloop_exact N Hc HN Hq Htm Hot (S N) st1 Hp1) as (st2 & E2 & Hg2 & Hm2 & e & He).
     { rewrite Ht1. apply tele0_wf. }
     { rewrite Ht1. cbn. lia. }
     { rewrite Ht1. cbn. lia. }
-    rewrite E2. destruct (s_pop st2) as [|h t] eqn:Epop.
+    assert (Erun : evolve_run cfg W q = Some (strategy_result cfg st2)) by (unfold evolve_run, loop_fuel; rewrite E1, Hl, E2; reflexivity).
+    rewrite Erun. unfold finish. cbn [strategy_result s_pop]. destruct (s_pop st2) as [|h t] eqn:Epop.
     - exfalso. destruct (s_pop st1); [congruence|discriminate].
-    - eexists _, st2. split; [reflexivity|]. split; assumption.
+    - eexists _, _. split; [reflexivity|]. cbn [strategy_result s_tele s_iters]. split; [exact Hg2|]. split; [exact Hm2|].
+      pose proof (proj1 (evolve_run_counted cfg W q _ Erun)) as Hi. cbn [strategy_result s_iters s_tele] in Hi. rewrite Hi. exact Hg2.
+  Qed.
+  (* the quota is reached before anything was constructed (it answers true at every poll): every initial operator returns a solution
+     without a tour in which every job of the plan is reported unassigned *)
+  Definition nothing_placed (s : hsol) : Prop := h_routes s = [] /\ forall j, In j jobs -> In j (h_unassigned s).
+
+  Lemma initial_quota_all : (forall n, q n = true) ->
+    forall n idx st st1, initial n idx cfg W q st = Some st1 -> Forall nothing_placed (s_pop st) -> Forall nothing_placed (s_pop st1).
+  Proof.
+    intros Hq. induction n as [|n IH]; intros idx st st1 E HP; cbn [initial] in E; [injection E as <-; exact HP|].
+    destruct (is_termination (cfg_terms cfg) (t_stat_gen (s_tele st)) (o_time W) (o_other W) (s_tpolls st)) as [term tp].
+    destruct (est_exceeds (cfg_terms cfg) (t_stat_gen (s_tele st)) (o_init_quota W idx) || term); [injection E as <-; exact HP|].
+    destruct (process_quota_first (o_init_ev W idx (init_operator cfg W idx)) q (mkP (init (c_jobs cfg)) (c_reg cfg) (s_polls st) 0) (Hq _))
+      as (p & Ep & Hr & _ & _ & _ & Hu).
+    rewrite Ep in E. apply (IH _ _ _ E). cbn [s_pop]. apply Forall_app. split; [exact HP|]. constructor; [|constructor].
+    split; [rewrite Hr; reflexivity|]. intros j Hj. apply Hu. right. exact Hj.
+  Qed.
+
+  Lemma iloop_quota_reached : (forall n, q n = true) ->
+    forall fuel st, exists st', iloop fuel cfg W q st = Some st' /\ s_pop st' = s_pop st /\ s_tele st' = s_tele st /\ s_iters st' = s_iters st.
+  Proof.
+    intros Hq fuel st. destruct fuel; cbn [iloop];
+      destruct (is_termination (cfg_terms cfg) (t_stat_gen (s_tele st)) (o_time W) (o_other W) (s_tpolls st)) as [term tp];
+      rewrite Hq, orb_true_r; eexists; (split; [reflexivity|]); repeat split.
+  Qed.
+
+  Theorem evolve_quota_before_construction :
+    1 <= c_init_ops cfg -> 1 <= T -> c_individuals cfg = [] -> 1 <= c_init_size cfg -> first_check_passes cfg W ->
+    (forall n, q n = true) ->
+    exists best st, evolve cfg W q = EOk best st /\ gens_run (s_tele st) = 0 /\ s_iters st = 0
+                    /\ Good jobs best /\ nothing_placed best.
+  Proof.
+    intros Hops HT Hind Hsize Hfirst Hq. unfold evolve.
+    assert (E0 : (c_init_ops cfg =? 0) = false) by (apply Nat.eqb_neq; lia). rewrite E0.
+    assert (ET : (c_track cfg =? 0) = false) by (apply Nat.eqb_neq; fold T; lia). rewrite ET.
+    assert (Hs : seeded cfg = []) by (unfold seeded; rewrite Hind; destruct (c_init_size cfg); reflexivity).
+    assert (Hgood : Forall (Good jobs) (c_individuals cfg)) by (rewrite Hind; constructor).
+    assert (Hstart : starts_nonempty) by (right; rewrite Hs; split; [cbn [length]; lia|exact Hfirst]).
+    destruct (before_loop Hgood) as (st1 & E1 & Hp1 & Ht1 & Hi1 & _ & _ & Hne1). specialize (Hne1 Hstart).
+    assert (HP1 : Forall nothing_placed (s_pop st1)).
+    { apply (initial_quota_all Hq _ _ _ _ E1). unfold seed. rewrite Hs. constructor. }
+    destruct (iloop_quota_reached Hq (loop_fuel cfg) st1) as (st2 & E2 & Hp2 & Ht2 & Hi2).
+    unfold evolve_run. rewrite E1, E2. unfold finish. cbn [strategy_result s_pop]. rewrite Hp2.
+    destruct (s_pop st1) as [|h t] eqn:Epop; [congruence|].
+    assert (Hin : In (nth (o_best W (h :: t)) (h :: t) h) (h :: t)) by (eapply pick_in; reflexivity).
+    eexists _, _. split; [reflexivity|]. cbn [strategy_result s_tele s_iters].
+    change (gens_run (on_result (c_track cfg) (s_tele st2))) with (gens_run (s_tele st2)).
+    rewrite Ht2, Ht1, Hi2, Hi1. split; [reflexivity|]. split; [reflexivity|].
+    split; [exact (proj1 (Forall_forall _ _) Hp1 _ Hin)|exact (proj1 (Forall_forall _ _) HP1 _ Hin)].
+  Qed.
+
+  (* only a time limit stops the run (no generation limit): for every fuel above the number of clock readings after which the
+     limit is hit the run returns a valid solution, provided the population Iterative::run starts from is not empty *)
+  Theorem evolve_time_returns T0 k :
+    c_max_gen cfg = None -> c_user_term cfg = None -> c_max_time cfg = true ->
+    1 <= c_init_ops cfg -> 1 <= T -> Forall (Good jobs) (c_individuals cfg) -> starts_nonempty ->
+    (forall t, T0 <= t -> o_time W t = true) -> T0 < c_fuel cfg ->
+    exists best st, evolve cfg W q = EOk best st
+                    /\ Good jobs best /\ In best (s_pop st) /\ Forall (Good jobs) (s_pop st)
+                    /\ gens_run (s_tele st) <= T0 /\ (fires_by q k -> gens_run (s_tele st) <= pred k)
+                    /\ counted st.
+  Proof.
+    intros Hc Hu Ht Hops HT Hind Hstart Hclock Hfuel. unfold evolve.
+    assert (E0 : (c_init_ops cfg =? 0) = false) by (apply Nat.eqb_neq; lia). rewrite E0.
+    assert (ET : (c_track cfg =? 0) = false) by (apply Nat.eqb_neq; fold T; lia). rewrite ET.
+    destruct (before_loop Hind) as (st1 & E1 & Hp1 & Ht1 & Hi1 & _ & _ & Hne1). specialize (Hne1 Hstart).
+    destruct (cfg_terms_time_first cfg Hc Ht) as (r & Hts).
+    assert (Hl : gen_limit (cfg_terms cfg) = None).
+    { unfold cfg_terms, terminations. rewrite Hc, Ht, Hu. destruct (c_min_cv cfg), (c_target cfg); reflexivity. }
+    destruct (iloop_time r T0 k Hts Hclock (c_fuel cfg) st1 Hp1) as (st2 & E2 & Hp2 & (e & He) & Hg2 & Hq2); [lia|].
+    assert (Erun : evolve_run cfg W q = Some (strategy_result cfg st2)) by (unfold evolve_run, loop_fuel; rewrite E1, Hl, E2; reflexivity).
+    rewrite Erun. unfold finish. cbn [strategy_result s_pop]. destruct (s_pop st2) as [|h t] eqn:Epop.
+    - exfalso. rewrite He in Epop. destruct (s_pop st1); [congruence|discriminate].
+    - eexists (nth (o_best W (h :: t)) (h :: t) h), _. split; [reflexivity|]. cbn [strategy_result s_pop s_tele]. rewrite ?Epop.
+      assert (Hin : In (nth (o_best W (h :: t)) (h :: t) h) (h :: t)) by (eapply pick_in; reflexivity).
+      change (gens_run (on_result (c_track cfg) (s_tele st2))) with (gens_run (s_tele st2)).
+      rewrite Ht1 in Hg2, Hq2. cbn [tele0 gens_run t_next] in Hg2, Hq2.
+      split; [eapply Forall_forall; [exact Hp2|exact Hin]|]. split; [exact Hin|]. split; [exact Hp2|]. split; [lia|]. split.
+      + intros Hk. specialize (Hq2 Hk (Nat.le_0_l _)). lia.
+      + exact (evolve_run_counted cfg W q _ Erun).
   Qed.
 End Evolve.
 
@@ -547,17 +970,81 @@ End Evolve.
 Theorem evolve_no_initial_operator cfg W q : c_init_ops cfg = 0 -> evolve cfg W q = EErr ErrNoInitialMethods.
 Proof. intros H. unfold evolve. rewrite H. reflexivity. Qed.
 
-Theorem evolve_zero_generations cfg W q : c_max_gen cfg = Some 0 -> 1 <= c_init_ops cfg -> evolve cfg W q = EErr ErrNoSolution.
+Theorem evolve_zero_generations cfg W q :
+  c_max_gen cfg = Some 0 -> 1 <= c_init_ops cfg -> 1 <= c_track cfg -> seeded cfg = [] -> evolve cfg W q = EErr ErrNoSolution.
 Proof.
-  intros Hc Hops. unfold evolve.
+  intros Hc Hops HT Hs. unfold evolve.
   assert (E0 : (c_init_ops cfg =? 0) = false) by (apply Nat.eqb_neq; lia). rewrite E0.
+  assert (ET : (c_track cfg =? 0) = false) by (apply Nat.eqb_neq; lia). rewrite ET.
   assert (Hterm : forall tp, is_termination (cfg_terms cfg) 0 (o_time W) (o_other W) tp = (true, tp)).
   { intros tp. unfold cfg_terms, terminations. rewrite Hc. destruct (c_max_time cfg); reflexivity. }
-  assert (Hinit : initial (c_init_size cfg) 0 cfg W q estate0 = Some estate0).
-  { destruct (c_init_size cfg); cbn [initial]; [reflexivity|].
-    change (t_stat_gen (s_tele estate0)) with 0. rewrite Hterm. cbv beta iota zeta. rewrite orb_true_r. reflexivity. }
-  rewrite Hinit. unfold loop_fuel. rewrite (gen_limit_cfg cfg 0 Hc). cbn [iloop].
-  change (t_stat_gen (s_tele estate0)) with 0. rewrite Hterm. reflexivity.
+  assert (Hinit : forall n idx st, s_tele st = tele0 -> exists st1, initial n idx cfg W q st = Some st1 /\ s_pop st1 = s_pop st /\ s_tele st1 = tele0).
+  { intros n idx st Ht. destruct n; cbn [initial]; [exists st; repeat split; assumption|].
+    rewrite Ht. change (t_stat_gen tele0) with 0. rewrite Hterm. cbv beta iota zeta. rewrite orb_true_r.
+    eexists. split; [reflexivity|]. split; reflexivity. }
+  unfold evolve_run. destruct (Hinit (c_init_size cfg - length (seeded cfg)) (length (seeded cfg)) (seed cfg estate0) eq_refl)
+    as (st1 & E1 & Hp1 & Ht1).
+  rewrite E1. unfold loop_fuel. rewrite (gen_limit_cfg cfg 0 Hc). cbn [iloop]. rewrite Ht1.
+  change (t_stat_gen tele0) with 0. rewrite Hterm. cbv beta iota zeta. cbn [orb]. unfold finish. cbn [strategy_result s_pop].
+  rewrite Hp1. unfold seed. rewrite Hs. reflexivity.
+Qed.
+
+(* track_population = 0: `generation % track_population` panics (telemetry.rs on_generation / on_result, mode OnlyMetrics) *)
+Theorem evolve_track_zero_panics cfg W q : 1 <= c_init_ops cfg -> c_track cfg = 0 -> evolve cfg W q = EPanic.
+Proof.
+  intros Hops HT. unfold evolve.
+  assert (E0 : (c_init_ops cfg =? 0) = false) by (apply Nat.eqb_neq; lia). rewrite E0, HT. reflexivity.
+Qed.
+
+(* "cannot find any solution" is returned exactly when the population is empty at the end of Iterative::run; the population only
+   grows, so then no individual was supplied, no initial operator was run and every generation handed over nothing *)
+Theorem evolve_no_solution_iff cfg W q :
+  evolve cfg W q = EErr ErrNoSolution <->
+  1 <= c_init_ops cfg /\ 1 <= c_track cfg /\ exists st, evolve_run cfg W q = Some st /\ s_pop st = [].
+Proof.
+  unfold evolve. destruct (c_init_ops cfg =? 0) eqn:E0; [apply Nat.eqb_eq in E0; split; [discriminate|lia]|].
+  destruct (c_track cfg =? 0) eqn:ET; [apply Nat.eqb_eq in ET; split; [discriminate|lia]|].
+  apply Nat.eqb_neq in E0, ET. destruct (evolve_run cfg W q) as [st|]; [|split; [discriminate|intros (_ & _ & st & H & _); discriminate]].
+  unfold finish. split.
+  - intros H. split; [lia|]. split; [lia|]. exists st. split; [reflexivity|]. destruct (s_pop st); [reflexivity|discriminate].
+  - intros (_ & _ & st' & H & Hp). injection H as <-. rewrite Hp. reflexivity.
+Qed.
+
+Lemma generation_pop_prefix cfg W q st st' : generation cfg W q st = Some st' -> exists e, s_pop st' = s_pop st ++ e.
+Proof.
+  unfold generation. intros E. destruct (if o_inner W (s_iters st) then _ else _) as [[offs polls]|]; [|discriminate].
+  injection E as <-. eexists. reflexivity.
+Qed.
+
+Lemma iloop_pop_prefix cfg W q : forall fuel st st', iloop fuel cfg W q st = Some st' -> exists e, s_pop st' = s_pop st ++ e.
+Proof.
+  induction fuel as [|f IH]; intros st st' E; cbn [iloop] in E;
+    destruct (is_termination (cfg_terms cfg) (t_stat_gen (s_tele st)) (o_time W) (o_other W) (s_tpolls st)) as [term tp];
+    destruct (term || q (s_polls st));
+    try (injection E as <-; exists []; cbn [s_pop]; rewrite app_nil_r; reflexivity); try discriminate.
+  match type of E with match generation cfg W q ?s with _ => _ end = _ => destruct (generation cfg W q s) as [st2|] eqn:Eg; [|discriminate] end.
+  destruct (generation_pop_prefix _ _ _ _ _ Eg) as (e1 & H1). destruct (IH _ _ E) as (e2 & H2).
+  exists (e1 ++ e2). rewrite H2, H1. cbn [s_pop]. rewrite app_assoc. reflexivity.
+Qed.
+
+Lemma initial_pop_prefix cfg W q : forall n idx st st', initial n idx cfg W q st = Some st' -> exists e, s_pop st' = s_pop st ++ e.
+Proof.
+  induction n as [|n IH]; intros idx st st' E; cbn [initial] in E; [injection E as <-; exists []; rewrite app_nil_r; reflexivity|].
+  destruct (is_termination (cfg_terms cfg) (t_stat_gen (s_tele st)) (o_time W) (o_other W) (s_tpolls st)) as [term tp].
+  destruct (est_exceeds (cfg_terms cfg) (t_stat_gen (s_tele st)) (o_init_quota W idx) || term).
+  - injection E as <-. exists []. cbn [s_pop]. rewrite app_nil_r. reflexivity.
+  - destruct (process _ q _) as [p|]; [|discriminate]. destruct (IH _ _ _ E) as (e & He).
+    exists ([p_sol p] ++ e). rewrite He. cbn [s_pop]. rewrite <- app_assoc. reflexivity.
+Qed.
+
+(* nothing handed to the population is ever lost in the model: the supplied individuals are a prefix of the final population
+   (for EVERY oracle; so a run that ends with "cannot find any solution" had no supplied individual) *)
+Theorem evolve_run_keeps_seeded cfg W q st : evolve_run cfg W q = Some st -> exists e, s_pop st = seeded cfg ++ e.
+Proof.
+  unfold evolve_run. intros E. destruct (initial _ _ cfg W q (seed cfg estate0)) as [st1|] eqn:E1; [|discriminate].
+  destruct (iloop (loop_fuel cfg) cfg W q st1) as [st2|] eqn:E2; [|discriminate]. injection E as <-.
+  destruct (initial_pop_prefix _ _ _ _ _ _ _ E1) as (e1 & H1). destruct (iloop_pop_prefix _ _ _ _ _ _ E2) as (e2 & H2).
+  exists (e1 ++ e2). cbn [strategy_result s_pop]. rewrite H2, H1. cbn [seed s_pop estate0 app]. rewrite app_assoc. reflexivity.
 Qed.
 
 (* ------------------------------------------------------------------ DecomposeSearch inner loop *)
@@ -575,3 +1062,33 @@ Qed.
 Lemma decompose_inner_reached q inner repeat polls done :
   (forall n, q n = true) -> 1 <= repeat -> fst (decompose_inner repeat q polls inner done) = S done.
 Proof. intros Hq Hr. destruct repeat; [lia|]. cbn [decompose_inner]. rewrite Hq. reflexivity. Qed.
+
+(* ------------------------------------------------------------------ the quota of a nested search step *)
+(* once the outer quota has run out, EVERY poll of the nested environment answers true, whatever its own time limit and clock *)
+Lemma custom_poll_outer_fired limit time_up inner p k :
+  fires_by inner k -> k <= S p -> fst (custom_poll (custom_quota limit true) time_up inner p) = true.
+Proof.
+  intros Hk Hle. destruct limit; cbn [custom_quota custom_poll composite_poll]; [destruct time_up|]; cbn [fst];
+    try reflexivity; apply Hk; exact Hle.
+Qed.
+
+(* the composite answers true only when its clock is up or the outer quota says so; it polls the outer quota at most once and
+   not at all when its own clock is up *)
+Lemma custom_poll_sound c time_up inner p :
+  let r := custom_poll c time_up inner p in
+  (fst r = true -> time_up = true \/ inner p = true) /\ p <= snd r <= S p /\ (c = CComposite -> time_up = true -> snd r = p).
+Proof.
+  destruct c, time_up; cbn [custom_poll composite_poll fst snd]; repeat split; try lia; try discriminate; auto.
+Qed.
+
+(* without a quota on the outer environment the nested step never polls one *)
+Lemma custom_poll_no_outer limit time_up inner p : snd (custom_poll (custom_quota limit false) time_up inner p) = p.
+Proof. destruct limit; reflexivity. Qed.
+
+(* ------------------------------------------------------------------ initial phase: which operator builds which slot *)
+Lemma init_operator_in_order cfg W idx : idx < c_init_ops cfg -> init_operator cfg W idx = idx.
+Proof. intros H. unfold init_operator. apply Nat.ltb_lt in H. rewrite H. reflexivity. Qed.
+
+Lemma init_operator_weighted cfg W idx : c_init_ops cfg <= idx -> init_operator cfg W idx = o_weighted W idx.
+Proof. intros H. unfold init_operator. apply Nat.ltb_ge in H. rewrite H. reflexivity. Qed.
+
